@@ -164,6 +164,8 @@ theorem flattened_core : ∀ l : SaExpr, Core l = true → WG l = true →
   | .inlist _ _ _, hc, _ => by simp [Core] at hc
   | .inrows _ _ _, hc, _ => by simp [Core] at hc
   | .tuple_ _, hc, _ => by simp [Core] at hc
+  | .litcol _ _, hc, _ => by simp [Core] at hc
+  | .ilikeOperand _, hc, _ => by simp [Core] at hc
   | .absent, hc, _ => by simp [Core] at hc
 
 theorem assoc_coreBin_coreList {op : Op} (h : coreBin op = true) (ha : associative op = true) :
@@ -353,6 +355,8 @@ theorem negate_bool (e : SaExpr) (h : BoolE e) : BoolE (negate e) := by
   | inlist _ _ _ => simp [boolShape] at hs
   | inrows _ _ _ => simp [boolShape] at hs
   | tuple_ _ => simp [boolShape] at hs
+  | litcol _ _ => simp [boolShape] at hs
+  | ilikeOperand _ => simp [boolShape] at hs
   | absent => simp [boolShape] at hs
 
 end SaVerif.Expr
@@ -438,6 +442,8 @@ theorem selfGroup_asbool_boolE (c : SaExpr) (h : BoolE c) : selfGroup (some .asb
   | inlist _ _ _ => simp [boolShape] at hs
   | inrows _ _ _ => simp [boolShape] at hs
   | tuple_ _ => simp [boolShape] at hs
+  | litcol _ _ => simp [boolShape] at hs
+  | ilikeOperand _ => simp [boolShape] at hs
   | absent => simp [boolShape] at hs
 
 /-- operands taken over from a flattened member are not re-grouped under the list operator -/
@@ -479,6 +485,8 @@ theorem flattened_not_grouped (op : Op) (hop : coreList op = true) :
   | .inlist _ _ _, hc, _, _ => by simp [Core] at hc
   | .inrows _ _ _, hc, _, _ => by simp [Core] at hc
   | .tuple_ _, hc, _, _ => by simp [Core] at hc
+  | .litcol _ _, hc, _, _ => by simp [Core] at hc
+  | .ilikeOperand _, hc, _, _ => by simp [Core] at hc
   | .absent, hc, _, _ => by simp [Core] at hc
 
 theorem wgList_of_forall (op : Op) : ∀ (cs : List SaExpr),
@@ -592,6 +600,8 @@ theorem pyReflected_num (x y : SaExpr) (hy : NumE y) : pyReflected x y = false :
   | inlist _ _ _ => simp [numShape] at hs
   | inrows _ _ _ => simp [numShape] at hs
   | tuple_ _ => simp [numShape] at hs
+  | litcol _ _ => simp [numShape] at hs
+  | ilikeOperand _ => simp [numShape] at hs
   | absent => simp [numShape] at hs
 
 /-- **build_num**: numeric API-call trees build numeric, well grouped core elements -/
@@ -642,6 +652,9 @@ theorem build_num : ∀ (u : U) (e : SaExpr), NumU u = true → build u = some e
   | .subq _ _, _, hu, _ => by simp [NumU] at hu
   | .inOp _ _ _, _, hu, _ => by simp [NumU] at hu
   | .tupleIn _ _ _, _, hu, _ => by simp [NumU] at hu
+  | .pi _, _, hu, _ => by simp [NumU] at hu
+  | .ps _, _, hu, _ => by simp [NumU] at hu
+  | .strop _ _ _ _, _, hu, _ => by simp [NumU] at hu
   | .absent, _, hu, _ => by simp [NumU] at hu
 
 end SaVerif.Expr
@@ -664,6 +677,7 @@ theorem build_bool : ∀ (u : U) (e : SaExpr), BoolU u = true → build u = some
     | none => simp [ha] at hb
     | some x =>
       have nx := build_num a x hna ha
+      have hpl : isPyLit a = false := by cases a <;> first | rfl | (simp [NumU] at hna)
       cases hb' : build b with
       | none => simp [ha, hb'] at hb
       | some y =>
@@ -671,7 +685,7 @@ theorem build_bool : ∀ (u : U) (e : SaExpr), BoolU u = true → build u = some
         rcases hbb with hnb | hnull
         · have ny := build_num b y hnb hb'
           have hpr := pyReflected_num x y ny
-          simp only [hpr, Bool.false_eq_true, if_false] at hb
+          simp only [hpr, hpl, Bool.or_false, Bool.false_eq_true, if_false] at hb
           obtain ⟨e', he', be'⟩ := booleanCompare_num x y k hk nx ny
           have : booleanCompare x k.op y (negateOp k.op) none = some e := by
             cases hr : k.reflected with
@@ -687,7 +701,7 @@ theorem build_bool : ∀ (u : U) (e : SaExpr), BoolU u = true → build u = some
             have hk4 : k = .eq ∨ k = .ne ∨ k = .is_ ∨ k = .isnot := by
               simpa [Bool.or_eq_true, or_assoc] using hnull
             have hpr : pyReflected x SaExpr.null = false := by cases x <;> simp [pyReflected]
-            simp only [hpr, Bool.false_eq_true, if_false] at hb
+            simp only [hpr, hpl, Bool.or_false, Bool.false_eq_true, if_false] at hb
             obtain ⟨e', he', be'⟩ := booleanCompare_null x k hk4 nx
             have : booleanCompare x k.op .null (negateOp k.op) none = some e := by
               cases hr : k.reflected with
@@ -743,6 +757,9 @@ theorem build_bool : ∀ (u : U) (e : SaExpr), BoolU u = true → build u = some
   | .subq _ _, _, hu, _ => by simp [BoolU] at hu
   | .inOp _ _ _, _, hu, _ => by simp [BoolU] at hu
   | .tupleIn _ _ _, _, hu, _ => by simp [BoolU] at hu
+  | .pi _, _, hu, _ => by simp [BoolU] at hu
+  | .ps _, _, hu, _ => by simp [BoolU] at hu
+  | .strop _ _ _ _, _, hu, _ => by simp [BoolU] at hu
   | .absent, _, hu, _ => by simp [BoolU] at hu
 
 theorem build_boolList : ∀ (us : List U) (es : List SaExpr), BoolUList us = true →
